@@ -165,6 +165,9 @@ def oracle_assemble(case):
     if obs["out"] == "other":
         return {"signature": "C03:internal-error" + tag,
                 "what": "assembly ended with %s (%s)" % (obs.get("exc"), obs.get("msg"))}
+    if obs["out"] == "duplicate" and (len(obs.get("ids", [])) != 2 or -1 in obs.get("ids", [])):
+        return {"signature": "C03:duplicate-names-non-module" + tag,
+                "what": "DuplicateModules names %s: not two of the supplied modules (the graph requires %s)" % (obs.get("ids"), exp["out"])}
     if obs["out"] != exp["out"]:
         palin = any(u == rcx(u) for u, _, _ in ms)
         sig = "C03:outcome:%s-for-%s" % (obs["out"], exp["out"])
@@ -176,6 +179,9 @@ def oracle_assemble(case):
     if exp["out"] == "missing" and obs["oh"].upper() != exp["oh"]:
         return {"signature": "C03:stalled-overhang" + tag,
                 "what": "MissingModule names %s, the chain stalls at %s" % (obs["oh"], exp["oh"])}
+    if obs["out"] == "duplicate" and (len(obs["ids"]) != 2 or -1 in obs["ids"]):
+        return {"signature": "C03:duplicate-names-non-module" + tag,
+                "what": "DuplicateModules names %s: not two of the supplied modules (graph requires %s)" % (obs["ids"], exp["out"])}
     if exp["out"] == "duplicate":
         a, b = obs["ids"]
         ua, ub = ms[a][0], ms[b][0]
